@@ -115,8 +115,11 @@ class Design:
                 _, _, _, target, n, how, conns = op
                 m.insts[iname] = {"kind": "arr", "target": target, "n": n}
             else:
-                _, _, _, target, conns = op
-                m.insts[iname] = {"kind": "pair", "target": target, "n": 2}
+                target, conns = op[3], op[4]
+                bid = op[5] if len(op) > 5 else DIFF
+                if self.bundles[bid]["subs"]:
+                    raise ModelError("instance bundle over a nested bundle (outside this model)")
+                m.insts[iname] = {"kind": "pair", "target": target, "n": len(self.bundles[bid]["sigs"]), "bid": bid}
             m.conns[iname] = {}
             for p, x in conns.items():
                 m.conns[iname][p] = x
@@ -373,7 +376,8 @@ class Local:
                     raise IllFormed("array_size", iname)
                 elems = [(("a", iname, k), {}) for k in range(n)]
             else:
-                elems = [(("p", iname, mem), {}) for mem in ("p", "n")]
+                members = list(d.bundles[info.get("bid", DIFF)]["sigs"])
+                elems = [(("p", iname, mem), {}) for mem in members]
             for port, shape in ports.items():
                 node = self.port_node(iname, port, shape)
                 x = conns.get(port)
@@ -407,9 +411,9 @@ class Local:
                     if isinstance(shape, tuple):
                         raise ModelError("pair of a module with bundle ports (outside this model)")
                     if isinstance(val, dict):
-                        if set(val) != {("p",), ("n",)}:
+                        if set(val) != {(mem,) for mem in members}:
                             raise IllFormed("bad_member", f"{where}: pair bundle members {sorted(val)}")
-                        for (_seg, pm), mem in zip(elems, ("p", "n")):
+                        for (_seg, pm), mem in zip(elems, members):
                             if len(val[(mem,)]) != shape:
                                 raise IllFormed("width", f"{where}: pair member width")
                             self._assign(pm, port, val[(mem,)])
